@@ -14,7 +14,8 @@ CHECKS = {
              "pairs of the 8 structural kinds (thorough: all triples), every legal argument shape with <= 2 (thorough 3) single-valued arguments (+ multi) x "
              "{0,1,2 command names with aliases and omitted suffixes} x option companions, base/derived format splits, odd legal names. Per assignment ALL "
              "spellings: --n=v / --n v / -nv / -n v, bare optional values, every short-group merge, every order of option occurrences, every gap placement among "
-             "positionals and command names, every '--' split, name or alias for each command name.",
+             "positionals and command names, every '--' split, name or alias for each command name; all 7 positional word shapes (plain, -N, --foo, -f, '', a "
+             "second '--', '-') at every position behind the separator.",
         design_ref="2/C01",
         note="Trusted: the spelling generator in props/_parsegen.py encodes when a line IS a spelling of the assignment (separate values not starting with '-', "
              "dash-leading positionals only behind '--', omitted names only when no leading value collides). Not demanded: is_*_set by short name/position, the "
@@ -26,7 +27,7 @@ CHECKS = {
         category="fault_enumeration",
         text="(a) Token soup: all sequences of length <= 3 over a 25-token adversarial alphabet ('', '-', '--', '---', '--=', '-=', known/unknown long and short "
              "options with and without '=value', grouped shorts with an unknown letter, '-1', 'null', words) and lengths 4-5 over 8 of them (thorough <= 4 / 5-6 / "
-             "7) against 20 small formats, strict and lenient, on the real parser. (b) Every single fault (drop a required argument, surplus positional, unknown "
+             "7) against 20 small formats, strict and lenient, on the real parser. (b) Every single fault (drop a required argument, surplus positional - 'zz', '', '-', behind the separator also a command name or '--' -, unknown "
              "option at every group boundary, unknown letter in a group, '=x' on a flag, stripped required value, 'abc'/'null' for a typed value) applied to every "
              "spelling of a core family of C01 formats, each with its exactly predicted exception class. Oracle: strict outcome in {return, CannotParseArgs, "
              "NoSuchOption, ValueError}; lenient never a parse error; strict returns => lenient returns the identical result.",
@@ -54,17 +55,20 @@ CHECKS = {
              "returns a list of str, terminates (watchdog per chunk => verdict, not a hang), unquoted text splits like str.split(); (b) every list of <= 2 tokens of "
              "length <= 3 (thorough 3 tokens of length <= 2) over {a, e-acute, space, quotes, backslash, '-', '='} that the quoting scheme can express x quote style x "
              "separator x leading/trailing whitespace: tokens == original list; (c) generated command lines as StringArgs vs ArgvArgs: identical parse and "
-             "resolution, option_tokens == tokens before the first '--', has_option_token agrees.",
+             "resolution (also by a parser object that parsed another line before), option_tokens == tokens before the first '--', has_option_token agrees; (d) E3: "
+             "two threads tokenising two strings at once under the deterministic scheduler, every interleaving at source-line granularity of token_parser.py "
+             "with <= 1 (thorough 2) preemptions: each thread gets the tokens of its own string.",
         design_ref="2/C08",
         note="Trusted: the expressibility rule for backslash runs documented in props/c08.py (the scheme has no escape for a backslash before a quote).",
-        technique="bounded-exhaustive enumeration of strings and token lists on the implementation with a round-trip oracle",
+        technique="bounded-exhaustive enumeration of strings and token lists on the implementation with a round-trip oracle, plus preemption-bounded exhaustive "
+                  "schedule exploration of two concurrent scans",
     ),
     "C16": dict(
         engine="E2-explicit-state",
         category="model_checking",
         text="Explicit-state BFS over the real ProgressBar under a virtual clock (exact binary ticks): operations start / start(max') / advance(1|3) / set_progress "
              "{0, mid, max, max+2, -1} / display / clear / finish / set_message, each preceded by a clock advance from 5 values; configurations max {0,1,3,10} "
-             "(thorough to 200) x bar widths x 6 formats x min interval {0, 0.1} x {ANSI, plain, section at 20 columns, quiet}. Broad part: all ops x all clocks to "
+             "(thorough to 200) x bar widths x 6 formats x min interval {0, 0.1} x {ANSI, plain, section at 20 columns, quiet}, plus a pair of sections (the bar above a neighbour bar whose wrapped frame is redrawn as one more operation). Broad part: all ops x all clocks to "
              "depth 2 over 204 (thorough 890) configurations; reduced alphabets to depth 4-5 (thorough 6-7); complete ramps of set_progress for max up to 200. "
              "Every write is parsed against the format and interpreted on the terminal emulator: bar segment width, 0 <= step <= max, percent == 100*step//max, "
              "throttle respected below max, max/finish always draw, last frame final; ANSI screen == latest frame, plain: one frame per line and no control "
@@ -98,7 +102,8 @@ CHECKS = {
              "every branch point of that table's width distribution (minimum, +1, +2, both sides of every short/long split change and of the fit width, 40, 80, "
              "200, 1 rotated; thorough: every width from the minimum to the fit width). Oracle from the rendered text only: no exception; every line <= terminal; "
              "bordered styles: equal line widths, separators in identical columns; every style: cells' visible characters recovered per column top to bottom; "
-             "rows deep-equal before/after; second render identical.",
+             "rows deep-equal before/after; second render identical. Part P3: tables reached by set_row / add_row / set_rows / set_header_row AFTER a first rendering, "
+             "judged by the same clauses.",
         design_ref="2/C14",
         note="Trusted: the text-recovery oracle in props/c14.py. Minimum width = indentation + 4n+1 (bordered) / 2n-1 (borderless). One known finding "
              "(markup-shown:tagged-cell: tag cut by wrapping) is listed narrowly; other markup signatures still fail the check.",
@@ -256,7 +261,7 @@ CHECKS = {
              "(set_message while spinning, sleeps, Exception / KeyboardInterrupt / SystemExit, work on the other stream) x ANSI/plain x intervals, "
              "every schedule of main x spinner thread with at most 3 (thorough 4) preemptions at the granularity of stream writes, sleeps, "
              "Event.set/is_set, Thread.start/join, Lock acquire/release, and with at most 2 preemptions at the granularity of every source line of "
-             "progress_indicator.py, under a virtual clock in which timers may fire late. After every write the emitted bytes are interpreted on a "
+             "progress_indicator.py, under a virtual clock in which timers may fire late (a join with a time-out is a timer too: the joiner may go on while its target lives). After every write the emitted bytes are interpreted on a "
              "terminal emulator: each line is empty or exactly one frame; spinner stopped and joined on every exit path; end message last on normal "
              "exit; no deadlock/livelock; the body's exception propagates unchanged. Manual mode: explicit-state BFS over start/advance/set_message/"
              "finish x clock advances (depth 5/6) against the interval throttle and frame oracle.",
